@@ -80,9 +80,10 @@ Definition branches_ok (brs : list branch) : bool :=
 Definition guard_tail_ok (g : guard) : bool :=
   match g with GNdimPos => true | GLenGt 1 => true | _ => false end.
 Definition is_len1 (g : guard) : bool := match g with GLenGt 1 => true | _ => false end.
+(* isinstance first, then v.ndim > 0 (len() of a 0-d array raises), then len(v) > 1 somewhere after it *)
 Definition guards_ok (gs : list guard) : bool :=
   match gs with
-  | GIsArray :: r => forallb guard_tail_ok r && existsb is_len1 r
+  | GIsArray :: GNdimPos :: r => forallb guard_tail_ok r && existsb is_len1 r
   | _ => false
   end.
 Definition operand_eqb (a b : operand) : bool :=
@@ -99,3 +100,21 @@ Definition thin_spec_ok (d : thin_desc) : bool :=
   && operand_eqb (td_pop d) ONum && operand_eqb (td_size d) OArg && negb (td_replace d)
   && (td_draws d =? 1) && negb (td_draw_in_loop d) && td_all_values d
   && list_eqb (pair_eqb String.eqb String.eqb) (td_shape d) thin_shape_ref.
+
+(* ------------------------------------------------------------------ method_moments._sort_x_on_y_rank *)
+(* which parameter is sorted, which parameter's argsort gives the ranks, whether the sort is reversed; the rest
+   (rank_y = inverse permutation of y.argsort(), result = np.array(sorted(x))[rank_y]) is a recognised form.
+   rerankD takes an argsort and the vector of BOTH parameters and uses what the description says. *)
+Record rank_desc := mkRankDesc {
+  rk_sorted_arg : nat;
+  rk_rank_arg : nat;
+  rk_reverse : bool;
+  rk_shape : string
+}.
+Definition rerankD (d : rank_desc) (p0 p1 : list nat) (a0 a1 : list Z) : list Z :=
+  let srt := ZSort.sort (if rk_sorted_arg d =? 0 then a0 else a1) in
+  place (if rk_rank_arg d =? 0 then p0 else p1) (if rk_reverse d then rev srt else srt).
+Definition rank_shape_ref : string :=
+  "l0 = RANK_ARG.argsort() ; l1 = np.empty_like(l0) ; l1[l0] = np.arange(len(RANK_ARG)) ; return np.array(sorted(SORTED_ARG))[l1]"%string.
+Definition rank_spec_ok (d : rank_desc) : bool :=
+  (rk_sorted_arg d =? 0) && (rk_rank_arg d =? 1) && negb (rk_reverse d) && String.eqb (rk_shape d) rank_shape_ref.
